@@ -28,6 +28,7 @@ def make_cfg(rng):
     cfg['n_modules'] = (1, 1)
     cfg['n_funcs'] = (1, 3)
     cfg['forms'] = list(gen.SIMPLE_FORMS) + ['emitop', 'emitnoeol', 'emitnoeol']
+    cfg['p_none_want'] = rng.choice([0.0, 0.15])
     if rng.random() < 0.25:
         cfg['async_forms'] = list(gen.ASYNC_FORMS)
         cfg['p_async'] = 0.3
@@ -82,12 +83,44 @@ def corrupt_wants(rng, world):
         st['stale'] = src[0] if rng.random() < 0.6 else rng.choice(src)
 
 
+def ignored_want_then_stale(rng, world):
+    """a want that is switched off still closes the window: text written before it
+    (or by its own statement) cannot satisfy a later want"""
+    import world as W
+    cands = []
+    for dtid, dt, mod in W.iter_doctests(world):
+        steps = dt['steps']
+        wanted = [j for j, st in enumerate(steps) if st.get('want') in ('acc', 'last', 'repr') and not st.get('inline')
+                  and st['form'] not in ('tq', 'tqprint', 'bgtask')]
+        for a in wanted:
+            for b in wanted:
+                if b > a and stale_sources(steps, a + 1):
+                    cands.append((steps, a, b))
+    if not cands:
+        return False
+    steps, a, b = rng.choice(cands)
+    steps[a]['inline'] = [['+', 'IGNORE_WANT', None]]
+    steps[a]['inline_at'] = rng.choice(['first', 'last'])
+    if rng.random() < 0.5:
+        steps[a]['want_corrupt'] = 'replace'        # ignored anyway
+    src = [x for x in stale_sources(steps, a + 1) if x['kind'] == 'out']
+    if not src:
+        return False
+    steps[b]['want_corrupt'] = 'stale_prepend'
+    steps[b]['stale'] = src[0]
+    gen.fix_chunk_starts(steps)
+    return True
+
+
 def generate(rng, tier):
     cfg = make_cfg(rng)
     world = gen.gen_world(rng, cfg)
     text_corruption = rng.random() < 0.15
     if text_corruption:
-        corrupt_wants(rng, world)
+        if rng.random() < 0.25 and ignored_want_then_stale(rng, world):
+            pass
+        else:
+            corrupt_wants(rng, world)
     if rng.random() < 0.3:
         # doctests in which nothing, or only a part, runs (R5; and a skipped want is no want)
         import world as W
